@@ -216,7 +216,7 @@ Proof.
     apply dedup_res_In. apply H; auto. apply (grow_incl _ _ _ _ Hg). left; auto. }
   intros cx t s r Hex.
   induction Hex as
-    [ cx s | cx m s | cx m s | cx m s | cx f s | cx f s | cx s | cx c s | cx c s
+    [ cx s | cx m s | cx m s | cx m s | cx f s | cx f s | cx w s | cx c s | cx c s
     | cx s | cx s | cx s | cx s | cx u s
     | cx a b s s1 r Ha IHa Hb IHb
     | cx a b s r Ha IHa Hn
@@ -463,23 +463,23 @@ Definition con (k : kind) : contract := {| c_kind := k; c_ctor := false; c_block
 Definition bad_body : stmt :=
   Seq (Loop false
          (Seq (Choice Return Skip)
-         (Seq NetIO
+         (Seq (NetIO "sleep")
          (Seq (Lock "mu")
          (Seq (Read "servers")
          (Seq (Choice (Seq (Read "log") Return) Skip)         (* "no server found": return, mu held *)
          (Seq (Unlock "mu")
-         (Seq NetIO (Choice Break Skip)))))))))
+         (Seq (NetIO "dial") (Choice Break Skip)))))))))
       (Seq (Lock "mu") (Seq (Write "servers") (Seq (Unlock "mu") Return))).
 
 Definition good_body : stmt :=
   Seq (Loop false
          (Seq (Choice Return Skip)
-         (Seq NetIO
+         (Seq (NetIO "sleep")
          (Seq (Lock "mu")
          (Seq (Read "servers")
          (Seq (Choice (Seq (Read "log") (Seq (Unlock "mu") Return)) Skip)
          (Seq (Unlock "mu")
-         (Seq NetIO (Choice Break Skip)))))))))
+         (Seq (NetIO "dial") (Choice Break Skip)))))))))
       (Seq (Lock "mu") (Seq (Write "servers") (Seq (Unlock "mu") Return))).
 
 Definition mkfn (n : string) (b : stmt) : fn :=
@@ -503,7 +503,7 @@ Proof. vm_compute. reflexivity. Qed.
    (one iteration, the lock is taken, "no server found", return with mu held) *)
 Example bad_path_exists :
   fn_run Ebad (mkfn "sync" bad_body) HFree
-    (UViol {| v_kind := VUnbalancedReturn; v_what := ""; v_fn := "sync" |}).
+    (UViol {| v_kind := VUnbalancedReturn; v_what := "mu held"; v_fn := "sync" |}).
 Proof.
   set (s1 := {| hold_of := HHeld "mu" true; defers := []; dls := [] |}).
   exists (Ret s1). split; [|reflexivity].
@@ -511,7 +511,7 @@ Proof.
   apply E_SeqAbort; [|reflexivity].
   apply E_LoopAbort; [|reflexivity].
   apply E_SeqNorm with (s1 := init HFree); [apply E_ChoiceR; apply E_Skip|].
-  apply E_SeqNorm with (s1 := init HFree); [exact (E_NetIO Ebad cx (init HFree))|].
+  apply E_SeqNorm with (s1 := init HFree); [exact (E_NetIO Ebad cx "sleep" (init HFree))|].
   apply E_SeqNorm with (s1 := s1); [exact (E_Lock Ebad cx "mu" (init HFree))|].
   apply E_SeqNorm with (s1 := s1); [exact (E_Read Ebad cx "servers" s1)|].
   apply E_SeqAbort; [|reflexivity].
